@@ -129,7 +129,10 @@ impl<V> HashStrMap<V> {
         if let Some(s) = key.as_str() {
             self.insert(s, value)
         } else {
-            self.insert(&String::from_utf8_lossy(key.as_bytes()), value)
+            // Keys are `String`s: a byte string that is not UTF-8 cannot be stored faithfully.  The lossy
+            // conversion used here before filed it under U+FFFD, where get_by_fast_str never finds it and
+            // where different invalid keys overwrite each other.
+            Err(crate::error::ZiporaError::invalid_data("HashStrMap keys must be valid UTF-8"))
         }
     }
 
